@@ -16,12 +16,12 @@ import (
 // ---------------------------------------------------------------------------
 
 type vol struct {
-	kind                                      int
-	b                                         []byte
-	bps, spc, rsvd, nfats, rootEnt, fatsz     int
-	total, clusters                           int
-	fatOff, rootOff, dataOff                  int
-	eoc                                       uint32
+	kind                                  int
+	b                                     []byte
+	bps, spc, rsvd, nfats, rootEnt, fatsz int
+	total, clusters                       int
+	fatOff, rootOff, dataOff              int
+	eoc                                   uint32
 }
 
 func put16(b []byte, o int, v uint16) { binary.LittleEndian.PutUint16(b[o:], v) }
@@ -182,7 +182,7 @@ func (v *vol) clone() *vol {
 }
 
 const (
-	tDate = uint16(41<<9 | 3<<5 | 4)  // 2021-03-04
+	tDate = uint16(41<<9 | 3<<5 | 4) // 2021-03-04
 	tTime = uint16(5<<11 | 6<<5 | 4) // 05:06:08
 )
 
@@ -257,12 +257,14 @@ const (
 )
 
 // Standard content, identical for every FAT width.
-//   root: label, HELLO.TXT (3->4, 700 bytes), "My Long Directory" (cluster 5), deleted slot, EMPTY.BIN
-//   dir5: ., .., lower.txt (NT lower-case flags, cluster 6, 5 bytes), long file (7->10, 513 bytes), SUB (cluster 8)
-//   dir8: ., ..
+//
+//	root: label, HELLO.TXT (3->4, 700 bytes), "My Long Directory" (cluster 5), deleted slot, EMPTY.BIN
+//	dir5: ., .., lower.txt (NT lower-case flags, cluster 6, 5 bytes), long file (7->10, 513 bytes), SUB (cluster 8)
+//	dir8: ., ..
+//
 // Cluster 9 and 11.. are free; cluster 2 is the fat32 root, free otherwise.
 type layout struct {
-	rootHello, rootLFN, rootDirShort, rootDeleted, rootEmpty int // byte offsets of slots
+	rootHello, rootLFN, rootDirShort, rootDeleted, rootEmpty  int // byte offsets of slots
 	subDot, subDotDot, subLower, subLFN, subLongShort, subSub int
 }
 
